@@ -89,9 +89,18 @@ def one_datum(ctx, r, must, b0, txn):
     dp = data_params[0]
     data_leaf = lambda lv: bool(lv) and all(l[0] == "param" and l[1] == dp and not l[2] for l in lv)
     size_name = size_f[0][2]
+    from .c13 import newtype_tail, path_ends_in
+    size_tail = newtype_tail(ctx, size_f[0])
 
     def is_size_leaf(z):
-        return z[0] == "param" and z[2] and z[2][-1] == size_name
+        return z[0] == "param" and path_ends_in(z[2], size_name, size_tail)
+
+    def strip_newtypes(pl):
+        # a write through the field of a single-field struct is a write of the place that holds the struct
+        p = list(pl["p"])
+        while p and isinstance(p[-1], dict) and "f" in p[-1] and p[-1].get("adt") in g.newtypes:
+            p.pop()
+        return {"l": pl["l"], "p": p}
 
     # (a) size += data.len(): writes of the counter field in the view
     ws = []
@@ -99,7 +108,7 @@ def one_datum(ctx, r, must, b0, txn):
         for st in b.stmts(bb):
             if st["k"] != "assign" or not st["lhs"]["p"]:
                 continue
-            lhs = st["lhs"]
+            lhs = strip_newtypes(st["lhs"])
             root = lhs if any(isinstance(e, dict) and "f" in e for e in lhs["p"]) else \
                 ctx.world._root_place(b, {"l": lhs["l"], "p": []})
             if g.node_of_place(b, root) == size_f[0]:
@@ -162,6 +171,8 @@ def one_hash(ctx, r, txn):
     parts = txn_parts(ctx, txn)
     size_f = [n[2] for n in parts["size"]]
     size_owner = [n[1] for n in parts["size"]]
+    from .c13 import newtype_tail, path_ends_in
+    size_tail = newtype_tail(ctx, parts["size"][0]) if parts["size"] else ()
     txn_family = set([txn]) | set(_owned_structs(prog, txn).keys())
     hash_ty = ctx.anchors.get("HASH")
     from .c06 import rooted_in_txn_field, leaf_root_adt
@@ -236,7 +247,7 @@ def one_hash(ctx, r, txn):
             sz = expand_down(ctx.world, b, size_args(reg))
             oks = bool(sz) and bool(size_f) and all(
                 l[0] in ("param", "xparam") and leaf_root_adt(prog, b, l) in txn_family and
-                l[2] and l[2][-1] == size_f[0] for l in sz)
+                path_ends_in(l[2], size_f[0], size_tail) for l in sz)
             r.check(oks, "intent-size", b,
                     "the size registered is the transaction's byte counter",
                     "the size registered at %s has origins %s" % (site_where(reg), sorted(fmt_leaf(l) for l in sz)), site_where(reg))
@@ -316,6 +327,20 @@ def _origin(V, op, proj=(), depth=0):
         defs = V.assignments().get(l, [])
         if not defs and 1 <= l <= V.argc:
             return ("param", l, proj)
+        if len(defs) > 1:
+            # copies of one statement (a flat view duplicates blocks when it threads jumps) are one definition
+            uniq = []
+            for d in defs:
+                if not any(d[1] != "term" and u[1] != "term" and d[2] == u[2] for u in uniq):
+                    uniq.append(d)
+            defs = uniq
+        if len(defs) > 1 and proj:
+            # `match .. { [.., a, b, c] => Some([a, b, c]), _ => None }`: of the variants the value can be, the payload
+            # that is asked for exists in one only
+            full = [d for d in defs if d[1] != "term" and d[2]["k"] == "agg" and d[2].get("ak") == "adt" and d[2]["ops"]]
+            rest = [d for d in defs if d not in full]
+            if len(full) == 1 and all(d[1] != "term" and d[2]["k"] == "agg" and not d[2]["ops"] for d in rest):
+                defs = full
         if len(defs) != 1:
             return None
         bb, j, rv = defs[0]
@@ -329,6 +354,11 @@ def _origin(V, op, proj=(), depth=0):
             pl = rv["place"]
             continue
         if k == "agg" and rv.get("ak") == "tuple" and proj:
+            pl = place_of(rv["ops"][proj[0]])
+            proj = proj[1:]
+            continue
+        if k == "agg" and rv.get("ak") == "adt" and proj and isinstance(proj[0], int) and proj[0] < len(rv["ops"]):
+            # `Some([a, b, c])` returned by an inlined helper and taken apart again
             pl = place_of(rv["ops"][proj[0]])
             proj = proj[1:]
             continue
@@ -438,35 +468,81 @@ def _path_seq(ctx, V, op, bases, depth=0):
 
 
 def _buffer_local(V, op, depth=0):
-    """The local that owns the buffer an operand views (through reborrows, deref/as_slice calls and helper
-    parameters of a flat view)."""
-    o = _origin(V, op)
-    if o is None or o[0] != "call" or o[2] or depth > 8:
+    """The buffer an operand views, as a canonical place (local, field names): a local vector, or a vector field of a
+    local accumulator struct - through reborrows, deref/as_slice calls and `&self` / `&mut self` of inlined helpers."""
+    pl = place_of(op)
+    if pl is None or depth > 8:
         return None
-    t = V.blocks[o[1]]["term"]
-    last = (t["callee"].get("resolved") or t["callee"].get("path") or "").split("::")[-1]
-    if last in ("deref", "as_slice", "as_ref", "borrow", "as_bytes", "as_str", "deref_mut", "as_mut_slice") and len(t["args"]) == 1:
-        return _buffer_local(V, t["args"][0], depth + 1)
-    return t["dest"]["l"] if not t["dest"]["p"] else None
+    c = cfgutil.canon_place(V, {"l": pl["l"], "p": list(pl["p"]) + ["deref"]}) if \
+        V.prog.types[V.locals[pl["l"]]].get("k") == "ref" and not pl["p"] else cfgutil.canon_place(V, pl)
+    defs = V.assignments().get(c[0], [])
+    if not c[1] and len(defs) == 1 and defs[0][1] == "term":
+        t = defs[0][2]
+        last = (t["callee"].get("resolved") or t["callee"].get("path") or "").split("::")[-1]
+        if last in ("deref", "as_slice", "as_ref", "borrow", "as_bytes", "as_str", "deref_mut", "as_mut_slice") and len(t["args"]) == 1:
+            return _buffer_local(V, t["args"][0], depth + 1)
+    return c
 
 
 def _append_sequence(ctx, V, buf):
     """The slice-pattern bindings appended to the byte buffer `buf`, in order: [(k, from_end), ..] or None."""
     apps = [c for c in V.calls() if (c.path or "").split("::")[-1] in ("extend_from_slice", "extend", "push_str", "write_all",
                                                                         "extend_from_within", "append")
-            and c.term["args"] and ctx.world.borrowed_local(V, c.term["args"][0]) == buf]
+            and c.term["args"] and _buffer_local(V, c.term["args"][0]) == buf]
     apps.sort(key=lambda c: sum(1 for d in apps if V.dominates(d.bb, c.bb)))
     for a, b2 in zip(apps, apps[1:]):
         if not V.dominates(a.bb, b2.bb):
             return None
     seq = []
 
-    def comp(op, depth=0):
-        o = _origin(V, op)
+    def nth_from_end(t, bb):
+        """`it.next()` with `it = path.components().rev()`: the k-th such call yields the k-th component from the end."""
+        it = ctx.world.borrowed_local(V, t["args"][0]) if t["args"] else None
+        if it is None:
+            return None
+        o_it = _origin(V, {"l": it, "p": []})
+        if o_it is None or o_it[0] != "call" or o_it[2]:
+            return None
+        t_rev = V.blocks[o_it[1]]["term"]
+        if (t_rev["callee"].get("path") or "").split("::")[-1] != "rev" or not t_rev["args"]:
+            return None
+        o_c = _origin(V, t_rev["args"][0])
+        if o_c is None or o_c[0] != "call" or \
+                (V.blocks[o_c[1]]["term"]["callee"].get("path") or "").split("::")[-1] != "components":
+            return None
+        # every use of the iterator is a `next` on it, and they are totally ordered
+        uses = [c for c in V.calls() if any(ctx.world.borrowed_local(V, a) == it or
+                                            (place_of(a) is not None and place_of(a)["l"] == it) for a in c.term["args"])]
+        nexts = [c for c in uses if (c.path or "").endswith("Iterator::next")]
+        if len(uses) != len(nexts):
+            return None
+        nexts.sort(key=lambda c: sum(1 for d in nexts if V.dominates(d.bb, c.bb)))
+        for a, b2 in zip(nexts, nexts[1:]):
+            if not V.dominates(a.bb, b2.bb) or a.bb in cfgutil.reach(V, a.term["t"]):
+                return None
+        for k, c in enumerate(nexts):
+            if c.bb == bb:
+                return [(k + 1, True)]
+        return None
+
+    def comp(op, depth=0, proj=()):
+        o = _origin(V, op, proj)
         if o is None or depth > 10:
             return None
         if o[0] == "cidx":
             return [(o[1], o[2])]
+        if o[0] == "call":
+            t0 = V.blocks[o[1]]["term"]
+            last0 = (t0["callee"].get("resolved") or t0["callee"].get("path") or "").split("::")[-1]
+            pj = tuple(o[2])
+            if last0 == "zip" and (t0["callee"].get("path") or "").startswith("std::option::Option") and \
+                    len(pj) >= 2 and pj[0] == 0 and pj[1] in (0, 1) and len(t0["args"]) == 2:
+                # `a.zip(b)`: component i of the payload is the payload of the i-th operand
+                return comp(t0["args"][pj[1]], depth + 1, (0,) + pj[2:])
+            if last0 == "next" and pj == (0,):
+                y = nth_from_end(t0, o[1])
+                if y is not None:
+                    return y
         if o[0] == "agg" and o[1].get("ak") == "array":
             out = []
             for x in o[1]["ops"]:
